@@ -199,6 +199,6 @@ def check_hole(kind, tree, captured):
             continue
         except Exception as e:  # noqa: BLE001
             return "captured text %r does not evaluate: %s" % (captured, e)
-        if not canon.close(mv, iv, 1e-8):
+        if not canon.close(mv, iv, 1e-8, 1e-9):
             return "captured text %r = %r, model tree = %r at %s" % (captured, iv, mv, env)
     return None
